@@ -345,6 +345,8 @@ struct Workspace {
     backend: &'static str,
     four_state: bool,
     cpu: u32,
+    /// `VERYL_DUT_REUSE_MIN_BYTES=0`: every recurring component is a reuse boundary
+    min_bytes0: bool,
 }
 
 #[derive(Clone, Debug)]
@@ -365,6 +367,9 @@ impl Workspace {
         }
         if self.backend == "cc" {
             s.push_str("VERYL_AOT_C_ASYNC=0 ");
+        }
+        if self.min_bytes0 {
+            s.push_str("VERYL_DUT_REUSE_MIN_BYTES=0 ");
         }
         s.push_str(&format!("taskset -c {} veryl test --format json --seed 1 --backend {}", self.cpu, self.backend));
         if self.four_state {
@@ -406,6 +411,9 @@ impl Workspace {
             env.push(("VERYL_AOT_C_ASYNC", "0"));
         }
         env.push(("VERYL_DUT_REUSE", if c.reuse { "1" } else { "0" }));
+        if self.min_bytes0 {
+            env.push(("VERYL_DUT_REUSE_MIN_BYTES", "0"));
+        }
         let o = run_cmd("taskset", &args, &self.proj, &env, Duration::from_secs(400));
         if o.timed_out {
             return Err("timeout".into());
@@ -454,6 +462,7 @@ fn diff_reports(base: &Report, other: &Report, names: &[String]) -> Option<(Stri
 }
 
 struct CliProject {
+    min_bytes0: bool,
     files: Vec<(String, String)>,
     names: Vec<String>,
     classes: Vec<String>,
@@ -468,22 +477,22 @@ fn gen_cli_project(d: &mut Draw, cc_ok: bool) -> CliProject {
     let lib = gen_library(d);
     let pool = gen_param_pool(d, &lib);
     let n = 3 + d.below_usize(6);
-    let mut benches = vec![];
+    let mut tops = vec![];
     let mut names = vec![];
     for i in 0..n {
         // names: unique two-digit tag in the middle so that no name contains another
         let name = format!("T{}_{i:02}x", STEMS[d.below_usize(STEMS.len())]);
         names.push(name.clone());
-        let top = gen_top(d, &lib, &pool, name);
-        benches.push(gen_bench(d, top));
+        tops.push(gen_top(d, &lib, &pool, name));
     }
-    // make sure some tests share a DUT with the same parameters and some with different ones
+    // make sure some tests share a DUT with the same parameters
     if d.chance(2, 3) && n >= 2 {
-        let src = benches[0].top.main.clone();
+        let src = tops[0].main.clone();
         let k = 1 + d.below_usize(n - 1);
-        benches[k].top.main = src;
-        benches[k].top.wrap = benches[k].top.wrap && lib.wrappers[benches[k].top.main.dut];
+        tops[k].main = src;
+        tops[k].wrap = tops[k].wrap && lib.wrappers[tops[k].main.dut];
     }
+    let benches: Vec<Bench> = tops.into_iter().map(|t| gen_bench(d, t)).collect();
     let mut classes = lib.classes.clone();
     let used: Vec<&DutParams> = benches.iter().flat_map(|b| std::iter::once(&b.top.main).chain(b.top.second.iter())).collect();
     let mut same_mod_diff_params = false;
@@ -537,6 +546,7 @@ fn gen_cli_project(d: &mut Draw, cc_ok: bool) -> CliProject {
         _ => "cc",
     };
     let four_state = backend != "cc" && d.chance(1, 6);
+    let min_bytes0 = d.chance(1, 3);
     let split = d.bool();
     let mut files = vec![("Veryl.toml".to_string(), veryl_toml())];
     if split {
@@ -552,6 +562,7 @@ fn gen_cli_project(d: &mut Draw, cc_ok: bool) -> CliProject {
         files.push(("src/all.veryl".into(), all));
     }
     CliProject {
+        min_bytes0,
         files,
         names,
         classes,
@@ -581,6 +592,7 @@ fn cli_evaluate(d: &mut Draw, p: &CliProject, alone: bool) -> Outcome {
         backend: p.backend,
         four_state: p.four_state,
         cpu: d.below(total),
+        min_bytes0: p.min_bytes0,
     };
     let mut sorted = p.names.clone();
     sorted.sort();
@@ -606,7 +618,7 @@ fn cli_evaluate(d: &mut Draw, p: &CliProject, alone: bool) -> Outcome {
             runs.push(RunCfg { reuse: true, order: None, only: Some(n.clone()), label: format!("alone:{n}") });
         }
     }
-    let input = |detail: Value| json!({"files": files_json(&p.files), "backend": p.backend, "four_state": p.four_state, "tests": p.names, "forced_order": forced, "detail": detail});
+    let input = |detail: Value| json!({"files": files_json(&p.files), "backend": p.backend, "four_state": p.four_state, "min_bytes0": p.min_bytes0, "tests": p.names, "forced_order": forced, "detail": detail});
     for rc in &runs {
         let names: Vec<String> = match &rc.only {
             Some(n) => vec![n.clone()],
@@ -666,6 +678,9 @@ fn cli_evaluate(d: &mut Draw, p: &CliProject, alone: bool) -> Outcome {
     if alone {
         classes.push("runs:each-test-alone".into());
     }
+    if p.min_bytes0 {
+        classes.push("knob:VERYL_DUT_REUSE_MIN_BYTES=0".into());
+    }
     if base.tests.values().any(|t| t.status == "fail") {
         classes.push("verdict:some-test-fails".into());
     }
@@ -682,6 +697,25 @@ fn cli_case(d: &mut Draw, cc_ok: bool) -> Outcome {
     cli_evaluate(d, &p, alone)
 }
 
+/// Development aid: write the project generated from a pseudo-random choice vector.
+pub fn dump(dir: &std::path::Path, n: u64) {
+    let mut x = n.wrapping_mul(0x9E37_79B9_7F4A_7C15) ^ 0xD1B5_4A32_D192_ED03;
+    let choices: Vec<u32> = (0..6000)
+        .map(|_| {
+            x ^= x << 13;
+            x ^= x >> 7;
+            x ^= x << 17;
+            (x >> 16) as u32
+        })
+        .collect();
+    let mut d = Draw::new(choices);
+    let p = gen_cli_project(&mut d, true);
+    for (rel, text) in &p.files {
+        write_file(&dir.join(rel), text);
+    }
+    println!("backend {} four_state {} tests {:?}", p.backend, p.four_state, p.names);
+}
+
 fn replay_cli(v: &Value) -> Outcome {
     let files: Vec<(String, String)> = v["files"].as_object().map(|m| m.iter().map(|(k, x)| (k.clone(), x.as_str().unwrap_or("").to_string())).collect()).unwrap_or_default();
     let names: Vec<String> = v["tests"].as_array().map(|a| a.iter().filter_map(|x| x.as_str().map(|s| s.to_string())).collect()).unwrap_or_default();
@@ -691,6 +725,7 @@ fn replay_cli(v: &Value) -> Outcome {
         _ => "cranelift",
     };
     let p = CliProject {
+        min_bytes0: v["min_bytes0"].as_bool().unwrap_or(false),
         files,
         names,
         classes: vec!["recorded".into()],
@@ -714,13 +749,13 @@ pub fn run(ctx: &Ctx) {
     ctx.run_payloads("api-recorded", replay_api);
     ctx.run_payloads("cli-recorded", replay_cli);
     if only.is_empty() || only == "api" {
-        let n = std::env::var("C34_API_CASES").ok().and_then(|s| s.parse().ok()).unwrap_or(ctx.scale(300, 8000));
+        let n = std::env::var("C34_API_CASES").ok().and_then(|s| s.parse().ok()).unwrap_or(ctx.scale(200, 8000));
         ctx.run("api-tops", CaseCfg::cases(n).choices(6000).timeout_s(900).shrink_iters(60), |d| api_tops_case(d, cc_ok));
-        let n2 = std::env::var("C34_API_CASES").ok().and_then(|s| s.parse().ok()).unwrap_or(ctx.scale(200, 6000));
+        let n2 = std::env::var("C34_API_CASES").ok().and_then(|s| s.parse().ok()).unwrap_or(ctx.scale(120, 6000));
         ctx.run("api-designs", CaseCfg::cases(n2).choices(8000).timeout_s(900).shrink_iters(60), |d| api_designs_case(d, cc_ok));
     }
     if only.is_empty() || only == "cli" {
-        let n = std::env::var("C34_CLI_CASES").ok().and_then(|s| s.parse().ok()).unwrap_or(ctx.scale(40, 1500));
+        let n = std::env::var("C34_CLI_CASES").ok().and_then(|s| s.parse().ok()).unwrap_or(ctx.scale(30, 1500));
         let total = std::thread::available_parallelism().map(|n| n.get()).unwrap_or(1);
         ctx.run("cli", CaseCfg::cases(n).choices(6000).threads(total.min(12)).shrink_iters(6).timeout_s(3000), |d| cli_case(d, cc_ok));
     }
